@@ -167,6 +167,9 @@ func execC04(t *testing.T, c ConvCase) (v Verdict) {
 				labels = append(labels, "header()")
 			}
 			if out.C.TrailerGot {
+				if out.C.TrailerAgainDiffers != "" {
+					v.failf("%s: Trailer() called twice in a row gave different answers: %s", out.Name, out.C.TrailerAgainDiffers)
+				}
 				if msg := kit.MDEqual(metadata.MD(out.C.TrailerMD), wantTrl); msg != "" {
 					v.failf("%s: Trailer(): %s", out.Name, msg)
 				}
